@@ -76,8 +76,8 @@ MODULES = list(MODULES) + [(RETRY_MODULE, ["db_retry.wrapper", "db_retry.retry_l
 
 def bounded_transient_faults(tier, seed):
     from pvc import bounded
-    return [bounded.run("C22", "transient-faults", rule="three recording workloads (nested containers with subvalues, file results, a failing task under catch); one transient OperationalError replaces the commit at "
-                        "every commit position in turn (about 100 positions); every faulted run returns the clean run's value and leaves exactly the clean run's records: nothing lost, nothing duplicated")]
+    return [bounded.run("C22", "transient-faults", rule="five recording workloads (nested containers with subvalues, file results, files that only occur inside a container, a handle created inside a task, a failing task under catch); one transient OperationalError replaces the commit at "
+                        "every commit position in turn (about 130 positions); every faulted run returns the clean run's value and leaves exactly the clean run's records: nothing lost, nothing duplicated")]
 
 
 EXTRA_CHECKS = list(EXTRA_CHECKS) + [bounded_transient_faults]
